@@ -343,6 +343,11 @@ func registerNatives(P *Program) {
 	reg(V("Choice"), func(fr *frame, a []value) value {
 		m := fr.m
 		n := m.concreteInt(a[1], "Choice n")
+		if fv := m.fixedVals(); fv != nil {
+			if prev, ok := fv[m.str(a[0])]; ok && int64(prev) < n {
+				return m.intConst(int64(prev)) // same name, same choice (as in a native replay)
+			}
+		}
 		k := m.choice(int(n), m.str(a[0]))
 		m.setFixed(m.str(a[0]), uint64(k))
 		return m.intConst(int64(k))
